@@ -416,6 +416,9 @@ func (env *Env) pkgObject(pkg *types.Package, name string) (tv, bool, error) {
 }
 
 func (env *Env) ghostSort(g *GhostVar) (string, types.Type, error) {
+	if g.Type == "ref" {
+		return SInt, nil, nil // a ghost holding a reference (to a map, pointer, ...)
+	}
 	t, err := env.parseType(g.Type)
 	if err != nil {
 		return "", nil, fmt.Errorf("ghost %s: %v", g.Name, err)
